@@ -406,9 +406,11 @@ type ConsoleFunc func(s *stack.Snapshot, a *stack.Aggregated, pf int, filter, ma
 // the rendering itself with the rendering of the twin.
 func CheckConsole(c *Case, cf ConsoleFunc, cov *Cov) []*Violation {
 	b := c.Stream().Bytes
-	opts := &stack.Opts{NameArguments: true}
 	parse := func() *stack.Snapshot {
-		s, _, _ := stack.ScanSnapshot(bytes.NewReader(b), io.Discard, opts)
+		// a fresh options value per parse (c.Tree: path guessing and source
+		// augmentation over the static tree, so that frames carry arguments
+		// rewritten from the sources, which the renderers print)
+		s, _, _ := stack.ScanSnapshot(bytes.NewReader(b), io.Discard, c.Opts())
 		return s
 	}
 	subject := parse()
@@ -469,14 +471,19 @@ func RunConsoleBatch(seed uint64, offset, stride, runs int, cf ConsoleFunc) *CLI
 		r := core.NewRng(core.Mix(seed, "C14/console", uint64(i)))
 		var doc *gen.Doc
 		if r.Chance(0.6) {
-			doc = gen.GenerateSimilar(r, gen.SimilarCfg{Groups: r.Range(1, 4), MaxPerGrp: []int{1, 2, 4}[r.Intn(3)], Shuffle: r.Chance(0.5)})
+			sc := gen.SimilarCfg{Groups: r.Range(1, 4), MaxPerGrp: []int{1, 2, 4}[r.Intn(3)], Shuffle: r.Chance(0.5)}
+			if r.Chance(0.6) {
+				// source paths that resolve in the static tree (and two that do not)
+				sc.Files = []string{"/usr/local/go/src/runtime/proc.go", "/usr/local/go/src/net/http/server.go", "/home/user/go/src/github.com/foo/bar/main.go", "/root/go/pkg/mod/github.com/x/y@v1.2.3/sema.go", "/nowhere/else/file.go", "<autogenerated>"}
+			}
+			doc = gen.GenerateSimilar(r, sc)
 		} else {
 			cfg := gen.DefaultCfg(r)
 			cfg.MinDumps, cfg.MaxDumps = 1, 1
 			cfg.Long, cfg.VeryLong = false, false
 			doc = gen.Generate(r, cfg)
 		}
-		c := &Case{Prop: "C14", Run: uint64(i), Seed: seed, Mode: "console", Doc: doc, NameArgs: true}
+		c := &Case{Prop: "C14", Run: uint64(i), Seed: seed, Mode: "console", Doc: doc, NameArgs: true, Tree: r.Chance(0.7)}
 		for _, v := range CheckConsole(c, cf, cov) {
 			if !seen[v.Clause] {
 				seen[v.Clause] = true
